@@ -109,6 +109,47 @@ def GOp.run (S : Segmenter) (alnum : Char → Bool) (c : Changeset) : GOp → Ch
   | .notif n => c.onNotif S alnum n
   | .begin => c.begin.1
 
+/-- the shape of the stack after `begin` and any sequence of notifications and nested `begin`s:
+    `extra ++ Begin :: c.undos` with no `End` in `extra`; the level counts the open `Begin`s -/
+theorem C05_ops_shape (S : Segmenter) (alnum : Char → Bool) (c : Changeset) :
+    ∀ (ops : List GOp) (c' : Changeset),
+      (∃ extra, c'.undos = extra ++ .begin :: c.undos ∧ ends extra = 0 ∧ c'.level = c.level + 1 + begins extra) →
+      ∃ extra, (ops.foldl (GOp.run S alnum) c').undos = extra ++ .begin :: c.undos ∧ ends extra = 0 ∧
+        (ops.foldl (GOp.run S alnum) c').level = c.level + 1 + begins extra := by
+  intro ops
+  induction ops with
+  | nil => intro c' h; exact h
+  | cons op ops ih =>
+    intro c' ⟨extra, hu, he, hl⟩
+    apply ih
+    cases op with
+    | begin =>
+      refine ⟨.begin :: extra, ?_, ?_, ?_⟩
+      · simp [GOp.run, Changeset.begin, hu]
+      · simpa [ends] using he
+      · simp [GOp.run, Changeset.begin, hl, begins]; omega
+    | notif n =>
+      simp only [GOp.run, Changeset.onNotif_level]
+      rcases Changeset.onNotif_shape S alnum c' n with h1 | ⟨ch, hm, h1⟩ | ⟨hd, rest, ch, hu', hm1, hm2, h1⟩
+      · exact ⟨extra, by rw [h1, hu], he, hl⟩
+      · refine ⟨ch :: extra, by rw [h1, hu]; rfl, ?_, ?_⟩
+        · cases ch <;> simp [Change.isMarker] at hm <;> simpa [ends] using he
+        · cases ch <;> simp [Change.isMarker] at hm <;> simpa [begins] using hl
+      · cases extra with
+        | nil =>
+          rw [hu] at hu'
+          simp only [List.nil_append, List.cons.injEq] at hu'
+          rw [← hu'.1] at hm1; simp [Change.isMarker] at hm1
+        | cons e extra' =>
+          rw [hu] at hu'
+          simp only [List.cons_append, List.cons.injEq] at hu'
+          obtain ⟨rfl, rfl⟩ := hu'
+          refine ⟨ch :: extra', by rw [h1]; rfl, ?_, ?_⟩
+          · cases ch <;> simp [Change.isMarker] at hm2 <;> cases e <;> simp [Change.isMarker] at hm1 <;>
+              simpa [ends] using he
+          · cases ch <;> simp [Change.isMarker] at hm2 <;> cases e <;> simp [Change.isMarker] at hm1 <;>
+              simpa [begins] using hl
+
 /-- **Truncate restores.** After `begin` (returning the mark), any sequence of listener
     notifications and nested `begin`s, and then `truncate mark`, the stack and the level are exactly
     what they were before `begin` — the abort-transparency clause at the level of the log (what the
@@ -120,44 +161,7 @@ theorem C05_truncate_restores (S : Segmenter) (alnum : Char → Bool) (c : Chang
     let c2 := ops.foldl (GOp.run S alnum) c1
     (c2.truncate mark).undos = c.undos ∧ (c2.truncate mark).level = c.level := by
   intro c1 mark c2
-  -- invariant: the stack is `extra ++ Begin :: c.undos`, no `End` in `extra`, level counts the Begins
-  have inv : ∀ (ops : List GOp) (c' : Changeset),
-      (∃ extra, c'.undos = extra ++ .begin :: c.undos ∧ ends extra = 0 ∧ c'.level = c.level + 1 + begins extra) →
-      ∃ extra, (ops.foldl (GOp.run S alnum) c').undos = extra ++ .begin :: c.undos ∧ ends extra = 0 ∧
-        (ops.foldl (GOp.run S alnum) c').level = c.level + 1 + begins extra := by
-    intro ops
-    induction ops with
-    | nil => intro c' h; exact h
-    | cons op ops ih =>
-      intro c' ⟨extra, hu, he, hl⟩
-      apply ih
-      cases op with
-      | begin =>
-        refine ⟨.begin :: extra, ?_, ?_, ?_⟩
-        · simp [GOp.run, Changeset.begin, hu]
-        · simpa [ends] using he
-        · simp [GOp.run, Changeset.begin, hl, begins]; omega
-      | notif n =>
-        simp only [GOp.run, Changeset.onNotif_level]
-        rcases Changeset.onNotif_shape S alnum c' n with h1 | ⟨ch, hm, h1⟩ | ⟨hd, rest, ch, hu', hm1, hm2, h1⟩
-        · exact ⟨extra, by rw [h1, hu], he, hl⟩
-        · refine ⟨ch :: extra, by rw [h1, hu]; rfl, ?_, ?_⟩
-          · cases ch <;> simp [Change.isMarker] at hm <;> simpa [ends] using he
-          · cases ch <;> simp [Change.isMarker] at hm <;> simpa [begins] using hl
-        · cases extra with
-          | nil =>
-            rw [hu] at hu'
-            simp only [List.nil_append, List.cons.injEq] at hu'
-            rw [← hu'.1] at hm1; simp [Change.isMarker] at hm1
-          | cons e extra' =>
-            rw [hu] at hu'
-            simp only [List.cons_append, List.cons.injEq] at hu'
-            obtain ⟨rfl, rfl⟩ := hu'
-            refine ⟨ch :: extra', by rw [h1]; rfl, ?_, ?_⟩
-            · cases ch <;> simp [Change.isMarker] at hm2 <;> cases e <;> simp [Change.isMarker] at hm1 <;>
-                simpa [ends] using he
-            · cases ch <;> simp [Change.isMarker] at hm2 <;> cases e <;> simp [Change.isMarker] at hm1 <;>
-                simpa [begins] using hl
+  have inv := C05_ops_shape S alnum c
   obtain ⟨extra, hu, he, hl⟩ := inv ops c1 ⟨[], rfl, rfl, by simp [c1, Changeset.begin, begins]⟩
   have hmark : mark = c.undos.length := rfl
   have hlen : c2.undos.length - mark = extra.length + 1 := by
@@ -422,17 +426,22 @@ theorem C05_primitives_faithful (S : Segmenter) (U : UData) (lb0 : LB) :
       rw [applyFwd_replace.mpr ⟨x', z, e1, e2, rfl⟩]
     · cases h
 
-/-- Full statement: aborting an incremental search or a completion leaves line, undo stack and group
-    level as before the command.  `C05_truncate_restores` is its log-level core.  As written it is
-    FALSE in vi mode — `C05_abort_transparent_refuted` below, finding D47: a key that leaves insert
-    mode during the search closes undo groups below the search's mark. -/
+/-- Full statement (NOT proved): aborting an incremental search or a completion leaves line, undo stack
+    and group level as before the command.  `C05_truncate_restores` (with `C05_ops_shape`) is its
+    log-level core.  D47 (records of the sub-loop left in the log when a key inside it had left vi insert
+    mode) is repaired — regression examples below.  As written the statement still fails in vi mode, for a
+    benign reason: the insert session's open `Begin` is gone after the abort because the session was left
+    (first example below); the vi clause should read "the stack before minus the open `Begin`s that leaving
+    insert mode closed".  In emacs mode `next_cmd` does not touch the log and the statement is expected to
+    hold as written. -/
 def C05_abort_transparent_statement : Prop :=
   ∀ (S : Segmenter) (U : UData) (cfg : EdCfg) (s s' : Ed) (fuel : Nat),
     (reverseIncrementalSearch S U cfg fuel s = .ok (none, s') ∨
      (completeLine S U cfg fuel s = .ok (none, s') ∧ cfg.listCompletion = false)) →
     s'.line.buf = s.line.buf ∧ s'.changes.undos = s.changes.undos ∧ s'.changes.level = s.changes.level
 
-/-! ### D47: the statement above is FALSE in vi mode -/
+/-! ### D47 (repaired): regression examples -/
+
 
 /-- witness data: one cluster per character, width 1, vi mode, one history entry -/
 def C05_wit_seg : Segmenter where
@@ -460,43 +469,26 @@ def C05_wit_state : Ed :=
     inp := {}, hint := none, highlightChar := false, defaultPrompt := true,
     input := { buf := [], avail := [], future := [[0x1b, 0x58], [0x07]] }, obs := [], validatorCalls := [] }
 
-/-- **D47 (model side).** An incremental search in vi insert mode, during which Alt-X is typed (it
-    leaves insert mode: `changes.end()` closes the search's own group AND the insert-mode group
-    below the search's mark) and which is then aborted: the abort returns `None`, the line is as
-    before ("xy"), but the undo stack, `[Begin]` before, is now `[Delete(0, "xy")]` — the first of
-    the two entries that restoring the backup pushed survives `truncate(mark)`, because the stack
-    had become shorter than the mark.  The next Undo "undoes" that deletion: the line becomes
-    "xyxy" (`C05_D47_read`; the same on the real code: known_findings.json D47). -/
-theorem C05_D47_abort_leaves_stale_entry :
+/-- **D47 regression (model of the repaired code).** An incremental search in vi insert mode during
+    which Alt-X is typed (it leaves insert mode: `changes.end()` closes the search's own group AND the
+    insert-mode group below the search's mark) and which is then aborted: the abort returns `None`,
+    the line is as before ("xy") and NOTHING of the search is left in the undo log — the mark follows
+    the lowest height the stack reached (`lowerMark`), so `truncate` also drops the two entries that
+    restoring the backup pushed.  (Before the repair `[Delete(0, "xy")]` stayed and the next Undo gave
+    "xyxy".)  The insert session's `Begin` is gone because the session WAS left: in vi mode the log
+    after an abort is the log before it minus the open `Begin`s that leaving insert mode closed. -/
+example :
     (reverseIncrementalSearch C05_wit_seg C05_wit_udata C05_wit_cfg 4 C05_wit_state).toOption.map
-      (fun r => (r.1.isNone, r.2.line.buf, r.2.changes.undos)) =
-    some (true, ['x', 'y'], [.delete 0 ['x', 'y']]) := by decide +kernel
+      (fun r => (r.1.isNone, r.2.line.buf, r.2.changes.undos, r.2.changes.level)) =
+    some (true, ['x', 'y'], [], 0) := by decide +kernel
 
-/-- **D47, a whole read**: initial text "xy" (cursor at 0); Alt-i, Ctrl-R, Alt-X, Ctrl-G, `u`, Enter.
-    Nothing was edited, yet the read returns "xyxy". -/
-theorem C05_D47_read :
+/-- **D47 regression, a whole read**: initial text "xy"; Alt-i, Ctrl-R, Alt-X, Ctrl-G, `u`, Enter.  The
+    Undo now does what it does without the search in between (`Alt-i u`): it takes back the initial
+    text, the only thing in the log. -/
+example :
     (readline C05_wit_seg C05_wit_udata C05_wit_cfg (KillRing.new 60) [] ['x', 'y']
       { buf := [], avail := [], future := [[0x1b, 0x69], [0x12], [0x1b, 0x58], [0x07], [0x75], [0x0d]] }).1
-      = .line ['x', 'y', 'x', 'y'] := by decide +kernel
-
-/-- **`C05_abort_transparent_statement` is refuted** (vi mode; witness `C05_D47_abort_leaves_stale_entry`).
-    In emacs mode `next_cmd` never closes undo groups, and the statement stays open there. -/
-theorem C05_abort_transparent_refuted : ¬ C05_abort_transparent_statement := by
-  intro h
-  have w := C05_D47_abort_leaves_stale_entry
-  cases hr : reverseIncrementalSearch C05_wit_seg C05_wit_udata C05_wit_cfg 4 C05_wit_state with
-  | error e => rw [hr] at w; cases w
-  | ok r =>
-    obtain ⟨o, s'⟩ := r
-    rw [hr] at w
-    simp only [Except.toOption, Option.map, Option.some.injEq, Prod.mk.injEq] at w
-    obtain ⟨ho, _, hu⟩ := w
-    cases o with
-    | some c => cases ho
-    | none =>
-      have h2 := (h C05_wit_seg C05_wit_udata C05_wit_cfg C05_wit_state s' 4 (Or.inl hr)).2.1
-      rw [hu] at h2
-      cases h2
+      = .line [] := by decide +kernel
 
 /-! ### D22: behaviour the check deliberately does not judge -/
 
